@@ -809,7 +809,31 @@ func hitConfirmedByIndex(r *core.Report, rule string) {
 			default:
 				if fnObj, ok := core.ObjOf(info, a).(*types.Func); ok {
 					if j := p.ByObj[fnObj.Origin()]; j != nil {
-						jobs, jobSigs = append(jobs, j), append(jobSigs, sigs)
+						// a method value of a job struct (search.run): the fields that the struct literal fills with the
+						// signature stand for the signature inside the method
+						sub := map[types.Object]bool{}
+						for o := range sigs {
+							sub[o] = true
+						}
+						for _, w2 := range f.AllWithLits() {
+							ast.Inspect(w2.Body, func(m ast.Node) bool {
+								cl, isLit := m.(*ast.CompositeLit)
+								if !isLit {
+									return true
+								}
+								for _, el := range cl.Elts {
+									if kv, isKV := el.(*ast.KeyValueExpr); isKV && sigs[core.ObjOf(info, kv.Value)] {
+										if kid, isId := kv.Key.(*ast.Ident); isId {
+											if fo := info.ObjectOf(kid); fo != nil {
+												sub[fo] = true
+											}
+										}
+									}
+								}
+								return true
+							})
+						}
+						jobs, jobSigs = append(jobs, j), append(jobSigs, sub)
 					}
 				}
 			}
